@@ -17,7 +17,7 @@ SPEC = {
     ],
     "extra_bins": [{"bin": "c04d", "extra_args": ["4", "30", "500"], "n_factor": 0.6}],
     "classes": {1: "uncaught-race", 2: "uncaught-error-drops-sibling-errors"},
-    "n_quick": 70, "n_thorough": 500,
+    "n_quick": 70, "n_thorough": 280,
     "extra_args": [],
     "level": "proof",
     "what_violation": "response data, error multiset or serial mutation order depends on the order in which resolvers complete",
